@@ -544,7 +544,10 @@ def _get_virtual_point_data_1storder(bc: ConstBC1stOrderBase):
         # arrays are copied into closures, making them compile-time
         # constants
         if bc.value_is_linked:
-            const_val = np.array(bc.const)
+            # `const` of the same shape as the linked value (see `MixedBC.link_value`)
+            const_val = np.array(
+                np.broadcast_to(bc._match_data_shape(bc.const), bc.value.shape)
+            )
             value_func = _make_value_getter(bc)
 
             @register_jitable(inline="always")
@@ -558,7 +561,7 @@ def _get_virtual_point_data_1storder(bc: ConstBC1stOrderBase):
                     elif 2 + dx * val == 0:
                         raise ValueError("Singular mixed boundary condition")
                     else:
-                        const.flat[i] = 2 * dx * const_val / (2 + dx * val)
+                        const.flat[i] = 2 * dx * const_val.flat[i] / (2 + dx * val)
                 return const
 
             @register_jitable(inline="always")
